@@ -102,7 +102,10 @@ def snapshot_ops(names):
 
 
 def disturbance():
-    return [["mathml", PROBE], ["speech"], ["braille", ""], ["navid"], ["braille", {"r": 3, "k": 0}], ["nodeat", 0], ["nodeat", 9999], ["brpos"], ["overview"],
+    # queries made while NO expression is set (they fail - and must leave the preferences alone all the same), then the series with expressions
+    return [["nodeat", 0], ["brpos"], ["navid"], ["navmml"], ["braille", ""], ["navbraille"], ["speech"], ["overview"], ["nav", "ZoomIn"], ["setnav", "x", 0], ["mathml", "<math><mi>broken"],
+            ["nodeat", 1], ["brpos"],
+            ["mathml", PROBE], ["speech"], ["braille", ""], ["navid"], ["braille", {"r": 3, "k": 0}], ["nodeat", 0], ["nodeat", 9999], ["brpos"], ["overview"],
             ["nav", "ZoomIn"], ["nav", "MoveNext"], ["nav", "ToggleSpeakMode"], ["nav", "ToggleSpeakMode"], ["setnav", {"r": 3, "k": 0}, 0],
             ["mathml", PROBE2], ["speech"], ["braille", ""], ["nodeat", 1], ["mathml", "<math><mi>broken"], ["mathml", PROBE]]
 
